@@ -42,6 +42,15 @@ PROPS = {
         "level_note": "Assumed: callbacks are pure and total; generators modelled by their whole output sequence; kids(n) finite and well-founded (rank). The lemma 'pre-order with filter g and h == filter g of pre-order with h' is not machine-checked. Bounded stand-in cross-checks the same statement natively on all trees <= 4 nodes.",
         "assumptions": ["callbacks pure/total", "nodes are immutable during a traversal (C10)", "list / deque / reverse semantics as encoded (cross-checked natively by rt.c05)"],
     },
+    "C02": {
+        "areas": ["contracts.node_eq"],
+        "rt": "rt.c02",
+        "level": "proof",
+        "technique": "contract on the real _eq_fn with a loop invariant over the strict zip of the two dfs streams (ghost done/rest), spec function origins() with induction lemmas, relation laws as lemmas over the postcondition; z3",
+        "level_text": "For all pairs of nodes: _eq_fn returns True exactly when class, content_id and root origin agree and the origins of the two descendant streams agree position by position (all depths), never raises (the strict zip cannot fail), is False against non-nodes; reflexivity, symmetry, transitivity follow from the postcondition; _hash_fn is a function of the id. Relative to the dfs contract (C05).",
+        "level_note": "Assumed: content-equal nodes of one class have equally long descendant streams (consequence of C01 under collision-free blake2b); origin == is the dataclass field-wise equality (abstracted as an equivalence); != is Python's default negation of __eq__; installation of _eq_fn/_hash_fn on subclasses (__init_subclass__) is checked by the bounded run only.",
+        "assumptions": ["blake2b collision-free at the configured width", "default __ne__", "id is written once (C10)"],
+    },
 }
 
 NOT_APPLICABLE: dict[str, str] = {}
